@@ -239,6 +239,7 @@ func (x *Exec) assertBeforeCall(st *State, fr *Frame, in ssa.Instruction, name s
 		}
 		x.assertSeen[c] = true
 		env := x.newEnv(st, fr.entry, fr)
+		env.anchorPos = in.Pos()
 		for i, a := range args {
 			env.vars[fmt.Sprintf("arg%d", i)] = a
 		}
